@@ -485,9 +485,29 @@ def check(ctx):
     with ctx.section('who-may-write'):
         allowed = set(handler_fns) | set(REQUESTERS) | {"connectionLost"}
         n_w = 0
+        # methods of the private nested state records (followed by the normaliser at their call sites) that write the negotiation fields of the record
+        # they are called on: such a write is made on behalf of the caller, and it is the caller that needs the permission
+        record_writers = {}
+        for mname, mf in norm.finl.table.items():
+            me = mf.args.args[0].arg
+            k = sum(1 for st in statements(mf) if isinstance(st, (ast.Assign, ast.AugAssign))
+                    for t in (st.targets if isinstance(st, ast.Assign) else [st.target]) for t2 in (t.elts if isinstance(t, (ast.Tuple, ast.List)) else [t])
+                    if isinstance(t2, ast.Attribute) and t2.attr in ("negotiating", "onResult") and isinstance(t2.value, ast.Name) and t2.value.id == me)
+            k += sum(1 for c in ast.walk(mf) if isinstance(c, ast.Call) and isinstance(c.func, ast.Attribute) and c.func.attr in ("callback", "errback"))
+            if k:
+                record_writers[mname] = k
+        record_fns = {id(f_) for f_ in norm.finl.table.values()}
         for qual, fn in mod.functions():
             parts = qual.split(".")
             in_allowed = len(parts) == 2 and parts[0] == "Telnet" and norm.permitted(parts[1], allowed)
+            if id(fn) in record_fns:
+                continue        # accounted for at the call sites below
+            for c in ast.walk(fn):
+                if isinstance(c, ast.Call) and isinstance(c.func, ast.Attribute) and c.func.attr in record_writers and norm.finl.helper_of(c) is not None:
+                    n_w += record_writers[c.func.attr]
+                    if not in_allowed:
+                        ctx.check(False, "who-may-write/negotiation-fields", ctx.construct("twisted.conch.telnet." + qual, c),
+                                  f"{qual} changes the negotiation fields of an option through {src(c.func)[:40]}(); only the requesters, the table handlers and connectionLost may")
             for st in statements(fn):
                 direct = _field_write(st)
                 via_param = [("?", t.attr, None) for t in (st.targets if isinstance(st, ast.Assign) else [getattr(st, "target", None)])
